@@ -124,6 +124,48 @@ def type_identity_keys(eng, rep, rule: str, modules: Iterable[str]) -> int:
             rep.violation(rule, g.file, g.qual, site, "the key that stands for a schema type leaves out %s (set per object by %s): two different types get the same key, and whatever the mapping holds for the first one met (size, layout, reader) is used for the other" % (", ".join("'%s'" % a for a in missing), ", ".join(sorted({k for a in missing for k in need[a]}))))
         else:
             rep.ok(rule, g.file, g.qual, site, "the key reads every distinguishing field (%s)" % ", ".join(sorted(need)))
+    # the same key built in place: `k = (p.__class__, p.name, ...)` as a statement of the function body itself (so it stands for
+    # ANY schema type the function is given, not for one kind already selected by a class test), with the class of the object
+    # as one component, then used to index a mapping
+    for g in _funcs_in(eng, modules):
+        for prm in [q for q in g.params if q.arg not in ("self", "cls") and _is_type_ann(eng, g, q.annotation)]:
+            p = prm.arg
+            for st in getattr(g.node, "body", []):
+                if not (isinstance(st, ast.Assign) and len(st.targets) == 1 and isinstance(st.targets[0], ast.Name) and isinstance(st.value, ast.Tuple)):
+                    continue
+                k = st.targets[0].id
+                read = set()
+                tagged = False
+                clean = True
+                for el in st.value.elts:
+                    if isinstance(el, ast.Attribute) and isinstance(el.value, ast.Name) and el.value.id == p:
+                        if el.attr == "__class__":
+                            tagged = True
+                        else:
+                            read.add(el.attr)
+                    elif isinstance(el, ast.Call) and dotted(el.func) == "type" and len(el.args) == 1 and isinstance(el.args[0], ast.Name) and el.args[0].id == p:
+                        tagged = True
+                    elif isinstance(el, ast.Call) and dotted(el.func) == "getattr" and len(el.args) >= 2 and isinstance(el.args[0], ast.Name) and el.args[0].id == p and isinstance(el.args[1], ast.Constant):
+                        read.add(str(el.args[1].value))
+                    else:
+                        clean = False  # a component computed some other way (a recursive key, the object itself, ...): not judged
+                if not (tagged and clean):
+                    continue
+                uses = []
+                for x in walk_local(g.node):
+                    if isinstance(x, ast.Subscript) and isinstance(x.slice, ast.Name) and x.slice.id == k:
+                        uses.append(norm(x, 50))
+                    elif isinstance(x, ast.Compare) and isinstance(x.left, ast.Name) and x.left.id == k and any(isinstance(o, (ast.In, ast.NotIn)) for o in x.ops):
+                        uses.append(norm(x, 50))
+                if not uses:
+                    continue
+                n += 1
+                site = "%s = %s used as %s" % (k, norm(st.value, 60), uses[0])
+                missing = sorted(a for a in need if a not in read)
+                if missing:
+                    rep.violation(rule, g.file, g.qual, site, "the key that stands for a schema type (its class plus %s) leaves out %s (set per object by %s): two different types get the same key, and whatever the mapping holds for the first one met (size, layout, reader) is used for the other" % (", ".join("'%s'" % a for a in sorted(read)) or "nothing", ", ".join("'%s'" % a for a in missing), ", ".join(sorted({c for a in missing for c in need[a]}))))
+                else:
+                    rep.ok(rule, g.file, g.qual, site, "the key reads every distinguishing field (%s)" % ", ".join(sorted(need)))
     rep.ok(rule, "-", "-", "type-identity key functions", "%d judged" % n)
     return n
 
